@@ -201,7 +201,7 @@ func crashTrigger(st *core.Step) string {
 }
 
 // legal single-component branch names with characters that parsers of HEAD / reflog / refs may trip over
-var oddBranchNames = []string{"a: b", "x y", "q:r", "émile", "a'b", "semi;colon", "~t", "^c", "ref: refs", "HEAD", "a b: c d", "[br]", "a(b", "日本", "-dash-inside"[1:], "tab-less", "topic ", " lead", "x  ", ".dot", "a.", "%s", "100%"}
+var oddBranchNames = []string{"a: b", "x y", "q:r", "émile", "a'b", "semi;colon", "~t", "^c", "ref: refs", "HEAD", "a b: c d", "[br]", "a(b", "日本", "-dash-inside"[1:], "tab-less", "topic ", " lead", "x  ", ".dot", "a.", "%s", "100%", strings.Repeat("L", 200), strings.Repeat("n", 244), strings.Repeat("n", 250), strings.Repeat("n", 255), strings.Repeat("n", 256)}
 
 var subcommands = []string{"init", "add", "rm", "commit", "status", "log", "reflog", "branch", "switch", "reset", "restore", "update-ref", "config", "cat-file", "hash-object", "ls-files", "rev-parse", "write-tree", "version", "help"}
 
@@ -276,6 +276,18 @@ func runC18(c *core.Ctx) {
 			if w.Hist%3 == 0 {
 				k.Do("commit-all")
 			}
+		}
+		if w.Hist%8 >= 5 {
+			// a user-written ignore file with arbitrary lines: Latin-1 names, metacharacters, blanks, NUL, long lines
+			lines := [][]byte{[]byte("caf\xe9.txt"), []byte("a(b/"), []byte("*.[ch]"), []byte(""), []byte("  "), []byte("\x00x"), []byte("**"), []byte("?+"), []byte("dir with space/"), []byte("*.\xff\xfe"), bytes.Repeat([]byte("l"), 5000), []byte("\\"), []byte("a|b"), []byte("^x$"), []byte("{1,2}")}
+			var ig []byte
+			for j := 0; j < 1+k.R.IntN(4); j++ {
+				ig = append(ig, lines[k.R.IntN(len(lines))]...)
+				ig = append(ig, '\n')
+			}
+			w.Write(".goitignore", ig)
+			k.goit("status")
+			k.goit("add", ".")
 		}
 		for i := 0; i < steps; i++ {
 			if k.chance(12) {
